@@ -53,7 +53,7 @@ pub struct RunOut {
 
 thread_local! {
     static RETRIES: std::cell::Cell<u32> = const { std::cell::Cell::new(0) };
-    static BIG_RUNS: std::cell::Cell<[u32; 2]> = const { std::cell::Cell::new([0, 0]) };
+    static RETRY_MILLIS: std::cell::Cell<u64> = const { std::cell::Cell::new(0) };
 }
 
 /// `FUEL` steps first; a search that needs more (legitimately: nested `.*` under a counted loop is
@@ -62,9 +62,14 @@ thread_local! {
 /// still "fuel" is never compared (see `differ`).
 pub fn run_exec(re: &Regex, exec: Exec, hay: &str, start: usize, limit: usize) -> RunOut {
     let r = run_exec_budget(re, exec, hay, start, limit, FUEL);
-    if r.text == "fuel" && RETRIES.with(|c| c.get()) < 40 {
+    // retries are bounded in number AND in wall-clock time (a PikeVM step on a pathological pattern copies long
+    // thread lists: 10^8 steps can take minutes)
+    if r.text == "fuel" && RETRIES.with(|c| c.get()) < 40 && RETRY_MILLIS.with(|c| c.get()) < 600_000 {
         RETRIES.with(|c| c.set(c.get() + 1));
-        return run_exec_budget(re, exec, hay, start, limit, FUEL_RETRY);
+        let t = std::time::Instant::now();
+        let r2 = run_exec_budget(re, exec, hay, start, limit, FUEL_RETRY);
+        RETRY_MILLIS.with(|c| c.set(c.get() + t.elapsed().as_millis() as u64));
+        return r2;
     }
     r
 }
@@ -254,24 +259,13 @@ pub fn engine(rep: &mut Report, focus: &str, n: usize, seed: u64, thorough: bool
                         let mut pk = run_exec(&c.opt, Exec::Pk, &hay, start, 64);
                         for (name, exec, r) in [("backtracking", Exec::Bt, &mut bt), ("PikeVM", Exec::Pk, &mut pk)] {
                             if r.text == "fuel" {
-                                rep.count("needed-more-than-3M-steps");
-                                // the large budget costs seconds (backtracker) to minutes (PikeVM: every step copies a
-                                // thread): at most eight such runs per executor and process, and a smaller one for the PikeVM
-                                let big = if matches!(exec, Exec::Pk) { FUEL_BIG / 8 } else { FUEL_BIG };
-                                let used = BIG_RUNS.with(|c| c.get());
-                                if used[(exec as usize) & 1] >= 8 {
-                                    rep.count("big-budget-runs-exhausted");
-                                    continue;
-                                }
-                                BIG_RUNS.with(|c| {
-                                    let mut u = c.get();
-                                    u[(exec as usize) & 1] += 1;
-                                    c.set(u)
-                                });
-                                *r = run_exec_budget(&c.opt, exec, &hay, start, 64, big);
-                                if r.text == "fuel" {
-                                    rep.violation("impl-vs-spec:C05", format!("{} did not finish within {} steps", name, big), label.clone());
-                                }
+                                // `run_exec` has already retried with 100M steps. Running out of a budget is not evidence of
+                                // non-termination by itself (nested counted loops over `.*?` are legitimately exponential):
+                                // the result goes to the tie as "fuel" with the steps spent, and is a violation exactly when
+                                // the reference search (the executor model, proved terminating) finishes the same case in
+                                // fewer than a quarter of those steps (decided in verif.py)
+                                rep.count(&format!("budget-exhausted:{}", name));
+                                let _ = exec;
                             }
                         }
                         rep.count_n("steps:bt", bt.steps);
@@ -315,6 +309,25 @@ pub fn engine(rep: &mut Report, focus: &str, n: usize, seed: u64, thorough: bool
     }
     if focus == "C02" || focus == "C05" {
         crate::scope::deep_attempt_scope(rep, focus, thorough);
+    }
+    if focus == "C05" {
+        // gap x attempt: a long run of characters that cannot start a match in front of a candidate whose anchored
+        // attempt fails expensively; the whole-search step count is tied to the search-loop model (within K)
+        for p in ["x(?:a|ab|b)*c", "x(?:a*)*c", "[xy](?:ab?)*?c", "x(a|b)+\\1c", "(?:x|y)(?:a|b)*(?=c)c"] {
+            let re = compile(p, "", false).unwrap();
+            let prog = prog_token(&re);
+            for gap in [0usize, 1, 64, 512, if thorough { 4096 } else { 1024 }] {
+                for k in [4usize, 12] {
+                    let hay = format!("{}x{}", ".".repeat(gap), "ab".repeat(k));
+                    rep.case(&format!("gap {} {} {}", p, gap, k), false);
+                    rep.count("gap-family");
+                    for (exec, tag) in [(Exec::Bt, "bt"), (Exec::Pk, "pk")] {
+                        let r = run_exec(&re, exec, &hay, 0, 64);
+                        rep.tie(format!("runprog {} utf8 {} {} 0", tag, prog, ast::bytes_hex(hay.as_bytes())), format!("ok {} {} {}", r.steps, r.peak, r.text).trim_end().to_string());
+                    }
+                }
+            }
+        }
     }
     if focus == "C02" || focus == "C03" {
         look_scope(rep, &mut rng, focus, thorough);
